@@ -130,12 +130,14 @@ First(checks) == IF \E i \in 1..Len(checks) : checks[i][1]
 OverwriteBad(conf, before, cur, r, img) ==
   LET owners == {p \in Live(conf, before) : TRef(p) = r /\ HasBackup(conf.entries[p.k])}
       o == Img(cur, r)
-  IN IF o # "" /\ o # img /\ owners # {} /\ Compl(cur, r) = 1 /\
+  IN IF o # "" /\ o # img /\ owners # {} /\ Compl(cur, r) = 1 /\ (Img(before, r) = o => Compl(before, r) = 1) /\
         ~\E p \in owners : LET b == BackupRef(conf.entries[p.k], p) IN Img(cur, b) = o /\ Compl(cur, b) = 1
      THEN "backup: tag overwritten while its previous image is not under the backup name"
      ELSE ""
 \* (an image that was already incomplete at the target cannot be made available anywhere: the
-\* backup obligation is demanded for previous images that were complete)
+\* backup obligation is demanded for previous images that were complete - when the run started, if
+\* the tag still holds that image: a holed image that a parallel entry happens to complete between
+\* the (failed) backup attempt and the overwrite is the same case, as in EndBad's backup clause)
 
 \* a tag that differs after the run (or was written during it) must be one the run had to write
 TagExplained(conf, L, before, after, r) ==
